@@ -77,7 +77,8 @@ Schedule == [sched |-> sched, s |-> ts, e |-> te,
 
 \* tasks whose duration bounds are extended by an interruption calendar (Declarative mode leaves them to Holds)
 UnderInterruption(t) == \E u \in UsesOfTask(P, t) : \E c \in CalCons(InterrCls) :
-                           P.uses[u].worker \in UnitsOf(P, P.cons[c].res)
+                           /\ ust[u] \in {"waiting", "busy", "done"}       \* a use the task actually takes
+                           /\ P.uses[u].worker \in UnitsOf(P, P.cons[c].res)
 
 OperationalCls == UnavailCls \cup InterrCls \cup {"WorkLoad"}
 
